@@ -465,6 +465,27 @@ def r4(ck, F):
             if undated:
                 problems.add("a file is accepted on %d path(s) without the rest of its name having parsed as a date: any file that shares the prefix and the suffix "
                              "(another appender's, or a hand-made one) is counted as this appender's log file and pruned" % undated)
+            # ... and the age the candidates are sorted by is when the file came into being -- its creation time, or the date in
+            # its name -- not when it was last written or read: an old period's file that is appended to or touched later
+            # would otherwise outlive younger ones
+            def calls_in(t, acc):
+                if isinstance(t, tuple):
+                    if t and t[0] == "call":
+                        acc.add(t[1])
+                    for x in t:
+                        calls_in(x, acc)
+                return acc
+            ages = set()
+            for p in PathEval(fc[0]).run():
+                if p.end == "return" and p.ret and p.ret[0] == "agg" and show(p.ret).startswith("Option::Some") and p.ret[3] and p.ret[3][0][0] == "agg" and len(p.ret[3][0][3]) == 2:
+                    cs = calls_in(p.ret[3][0][3][1], set())
+                    src = sorted(c.rsplit("::", 1)[-1] for c in cs if c.startswith("std::fs::Metadata::") or c.endswith("Date::parse") or c.endswith("::parse"))
+                    ages.add(tuple(src))
+            akey = "candidates are aged by creation time (or the date in the name), not by last write or access"
+            if ages and all(a and set(a) <= {"created", "parse"} for a in ages):
+                ck.ok("C16.R4", akey, fn=fc[0].path, detail=sorted(ages))
+            elif ages:
+                ck.bad("C16.R4", akey, where(fc[0].raw["sp"]), "the sort key of a candidate comes from %s: `oldest` then means least recently written, and a touched file of an old period outlives younger ones" % sorted(ages), fn=fc[0].path)
             key = "candidates: a configured prefix and a configured suffix must both match"
             if nacc and not problems:
                 ck.ok("C16.R4", key, fn=fc[0].path, detail=nacc)
